@@ -887,5 +887,10 @@ class SchedulingSolver(BaseModelWithJson):
         """export the model to a smt file to be processed by another SMT solver"""
         if not self._initialized:
             self.initialize()
+        if self._is_optimization_problem and self.optimizer == "optimize":
+            # z3.Optimize has no to_smt2 method
+            smt2_text = self._solver.sexpr()
+        else:
+            smt2_text = self._solver.to_smt2()
         with open(smt_filename, "w", encoding="utf-8") as outfile:
-            outfile.write(self._solver.to_smt2())
+            outfile.write(smt2_text)
